@@ -82,7 +82,23 @@ impl Serialize for Symbol {
 
 impl Serialize for Number {
     fn serialize<S: Serializer>(&self, serializer: S) -> Result<S::Ok, S::Error> {
-        if let Some(unit) = self.unit {
+        if !self.value.is_finite() {
+            // JSON has no literal for the non-finite numbers, Hayson spells them as strings
+            let val = if self.value.is_nan() {
+                "NaN"
+            } else if self.value > 0.0 {
+                "INF"
+            } else {
+                "-INF"
+            };
+            let mut map = serializer.serialize_map(Some(2))?;
+            map.serialize_entry("_kind", "number")?;
+            map.serialize_entry("val", val)?;
+            if let Some(unit) = self.unit {
+                map.serialize_entry("unit", unit.symbol())?;
+            }
+            map.end()
+        } else if let Some(unit) = self.unit {
             let mut map = serializer.serialize_map(Some(3))?;
             map.serialize_entry("_kind", "number")?;
             map.serialize_entry("val", &self.value)?;
